@@ -13,9 +13,9 @@ C01.ts    ParsedName / ParsedNameIter typestate: who may construct, who may
           write pos/name_len.
 C01.ovf   no checked narrow-int arithmetic on wire-controlled counts/lengths
           without a dominating bound.
-C01.txt   Txt's accessors index octet 0 unconditionally (the type is "never
-          empty"): every constructor of a Txt from outside data (slice validator,
-          wire parser, builder) establishes non-emptiness first.
+C01.txt   zero-length TXT data is accepted from the wire: no accessor of Txt
+          reads octet 0 (or slices from 1) without first establishing that it
+          exists, unless every constructor establishes non-emptiness.
 C01.arr   a range into a fixed-size buffer whose end derives from message
           octets is dominated by a bound <= the buffer's length.
 C01.skip  ParsedName::skip accepts uncompressed names of exactly the lengths
@@ -763,26 +763,19 @@ def rule_window(ctx, F):
 # ---------------------------------------------------------------------------
 
 def rule_txt(ctx, F):
-    """`Txt::as_flat_slice` reads octet 0 without a check and the iterator
-    documents "at least one string": the type's invariant is non-emptiness.
-    The slice validator enforces it; the wire parser and the builder must
-    too, or a zero-length TXT RDATA from the network yields a value whose
-    accessors panic."""
+    """TXT data from the wire may be empty (RDLENGTH 0 is accepted by
+    Txt::parse, and the repository's zone-file tests rely on that), while
+    Txt::from_octets and TxtBuilder never produce an empty value.  So either
+    every constructor establishes non-emptiness, or no accessor may touch
+    octet 0 (or slice from 1) without first establishing that there is one.
+    Decided per accessor: every constant-index access to the value's octets
+    is dominated by a fact that the octets are non-empty (a Some(..) edge of
+    first()/split_first()/get(), or a length comparison)."""
     R = "C01.txt"
     ctx.floor(R, 3)
     T = r"^rdata::rfc1035::txt::"
-    # (1) the slice validator rejects the empty slice
-    b = F.one_body(T + r"Txt::<\[u8\]>::check_slice$")
-    if ctx.anchor(R, "Txt::check_slice", b):
-        ok = False
-        for rb, si, kind, term in return_assignments(b):
-            if kind == "Err":
-                for tt, vv in bool_facts(b, rb, F):
-                    if tt[0] == "call" and (tt[1] or "").endswith("is_empty") and vv is True:
-                        ok = True
-        ctx.ob(R, b, "slice validator rejects empty data", ok,
-               "Txt::check_slice no longer rejects the empty slice although Txt's accessors index octet 0")
-    # (2) the wire parser establishes remaining() != 0 before building the value
+    # (1) does the wire parser guarantee non-emptiness?
+    parse_nonempty = False
     b = F.one_body(T + r"Txt::<Octs>::parse$")
     if ctx.anchor(R, "Txt::parse", b):
         oks = [r for r in return_assignments(b) if r[2] == "Ok"]
@@ -792,24 +785,70 @@ def rule_txt(ctx, F):
             s = deep_strip(tt)
             return s[0] == "call" and re.search(r"Parser::<.*>::remaining$|::len$", s[1] or "") and s[3] \
                 and deep_strip(s[3][0])[0] == "arg"
+        parse_nonempty = bool(oks)
         for rb, si, kind, term in oks:
             lo, hi, excl = interval_of(b, rb, is_len, F)
-            nonempty = (lo is not None and lo >= 1) or 0 in (excl or ())
-            for tt, vv in bool_facts(b, rb, F):
-                if tt[0] == "call" and (tt[1] or "").endswith("is_empty") and vv is False and tt[3] and \
-                        any(s[0] == "arg" for s in walk(deep_strip(tt[3][0]))):
-                    nonempty = True
-            ctx.ob(R, b, "wire parser rejects zero-length TXT data", nonempty,
-                   "Txt::parse returns Ok for RDLENGTH 0 (no dominating remaining() != 0): the value violates the "
-                   "type's never-empty invariant that Txt::from_octets enforces, and as_flat_slice() indexes octet 0 "
-                   "of it (panic on a record from the network)", b.where(rb))
-    # (3) the builder never freezes an empty buffer
+            ne = (lo is not None and lo >= 1) or 0 in (excl or ())
+            parse_nonempty = parse_nonempty and ne
+    ctx.note("C01.txt: Txt::parse %s zero-length TXT data" % ("rejects" if parse_nonempty else "accepts"))
+    # (2) accessors: constant-index accesses to the octets
+    n = 0
+    for p, x in sorted(F.bodies.items()):
+        if not re.match(T + r"Txt::<", p) or "::test" in p or x.kind != "AssocFn":
+            continue
+        sites = []
+        for bi in sorted(x.reachable_blocks()):
+            t = x.blocks[bi]["t"]
+            if t["k"] == "assert" and t["msg"][0] == "bounds":
+                idx = const_value(x.term_of_operand(t["msg"][2]))
+                arr = deep_strip(x.term_of_operand(t["msg"][1]))
+                if idx is not None:
+                    sites.append((bi, "octet [%d]" % idx, idx + 1))
+            if t["k"] == "call" and re.search(r"ops::Index(Mut)?::index(_mut)?$", t["fn"] or "") and len(t["targs"]) > 1 \
+                    and "RangeFrom" in t["targs"][1]:
+                rng = deep_strip(x.term_of_operand(t["args"][1]))
+                if rng[0] == "agg" and const_value(rng[2][0]) not in (None, 0):
+                    sites.append((bi, "slice [%d..]" % const_value(rng[2][0]), const_value(rng[2][0])))
+        for bi, what, need in sites:
+            n += 1
+            guarded = parse_nonempty
+            why = "every constructor establishes non-emptiness" if parse_nonempty else ""
+            if not guarded:
+                for subj, o in outcome_facts(x, bi, F):
+                    s = deep_strip(subj)
+                    if o == "success" and s[0] == "call" and re.search(r"::(first|split_first|get|first_mut|split_first_mut)$", s[1] or ""):
+                        guarded = True
+                        why = "dominated by a Some(..) edge of %s" % s[1].split("::")[-1]
+                lo, hi, excl = interval_of(x, bi, lambda tt: deep_strip(tt)[0] == "call" and (deep_strip(tt)[1] or "").endswith("::len"), F)
+                if lo is not None and lo >= need:
+                    guarded = True
+                    why = "dominated by len >= %d" % lo
+                for tt, vv in bool_facts(x, bi, F):
+                    if tt[0] == "call" and (tt[1] or "").endswith("is_empty") and vv is False:
+                        guarded = True
+                        why = "dominated by !is_empty()"
+            ctx.ob(R, x, "%s guarded#%d" % (what, n), guarded,
+                   "%s reads %s of the TXT data without establishing that it exists, and Txt::parse accepts "
+                   "zero-length TXT record data from the wire: the accessor panics on such a record"
+                   % (p.split("::")[-1], what), x.where(bi), detail=why)
+    ctx.ob(R, "rdata::rfc1035::txt::Txt", "accessors scanned", True, nontrivial=False,
+           detail="%d constant-index accesses in Txt's methods" % n)
+    # (3) the slice validator and the builder keep producing non-empty values
+    b = F.one_body(T + r"Txt::<\[u8\]>::check_slice$")
+    if ctx.anchor(R, "Txt::check_slice", b):
+        ok = False
+        for rb, si, kind, term in return_assignments(b):
+            if kind == "Err":
+                for tt, vv in bool_facts(b, rb, F):
+                    if tt[0] == "call" and (tt[1] or "").endswith("is_empty") and vv is True:
+                        ok = True
+        ctx.ob(R, b, "slice validator rejects empty data", ok,
+               "Txt::check_slice no longer rejects the empty slice")
     bs = [x for p, x in F.bodies.items() if re.match(T + r"TxtBuilder::<Builder>::finish$", p)]
     if ctx.anchor(R, "TxtBuilder::finish", len(bs) == 1):
         b = bs[0]
         ok = False
         for bb, t in b.calls_matching(r"::is_empty$"):
-            # on the empty edge an append happens before the value is built
             for sw in b.reachable_blocks():
                 tsw = b.blocks[sw]["t"]
                 if tsw["k"] != "switch":
@@ -823,19 +862,6 @@ def rule_txt(ctx, F):
                             ok = ok or bool(apps)
         ctx.ob(R, b, "builder pads an empty TXT with an empty string", ok,
                "TxtBuilder::finish must not freeze an empty buffer into a Txt")
-    # (4) who else builds a Txt directly
-    n = 0
-    for p, x in F.bodies.items():
-        if "::test" in p:
-            continue
-        for bi in x.reachable_blocks():
-            for st in x.blocks[bi]["s"]:
-                if st[0] == "=" and st[2][0] == "agg" and st[2][1][0] == "adt" and st[2][1][1] == "rdata::rfc1035::txt::Txt":
-                    n += 1
-                    inside = re.match(T + r"(Txt|TxtBuilder)", p.lstrip("<")) is not None
-                    ctx.ob(R, x, "Txt built inside its module#%d" % n, inside, nontrivial=False, where=x.where(bi),
-                           msg="a Txt value is constructed directly outside rdata::rfc1035::txt (%s): the never-empty "
-                               "invariant is established only by the module's constructors" % p)
 
 
 # ---------------------------------------------------------------------------
